@@ -283,6 +283,11 @@ func C13(ctx *Ctx) {
 				R.Fail("route", key+":analysable", pos, fmt.Sprintf("not interpretable: %v", ip.Imprec))
 				break
 			}
+			if slotNil && !fn.Object().Exported() {
+				// an unexported helper may report "nothing attached" to its caller; the
+				// exported accessors built on it are judged themselves
+				continue
+			}
 			if slotNil {
 				if out != nil || len(slotCalls) > 0 {
 					R.Fail("route", key+":empty-slot", pos, "an address without backend does not fail loudly (the function returns or still calls a backend)")
